@@ -39,7 +39,7 @@ func init() {
 }
 
 var c08labels = []int64{10, 100, -1, 1000, 24, 23, -24, -25, 255, 256, 65535, 65536, -256, -257, 8, 13, 14, 17, 31, 99}
-var c08texts = []string{"a", "aa", "b", "ab", "z", "", "aaa", "kid", "Z"}
+var c08texts = []string{"a", "aa", "b", "ab", "z", "", "aaa", "kid", "Z", "1", "4", "-1", "10", "100"}
 
 // c08header draws a header bucket with >= 2 keys whose orders disagree.
 func c08header(r *mon.Rand, protected bool, forbidIV bool) (map[any]any, int64) {
